@@ -78,6 +78,7 @@ type Contract struct {
 	Preserves   []string      // ghost variables the callee is assumed not to touch although it has no frame
 	Iterates    string        // name of the function-typed parameter the callee calls zero or more times (its only effect)
 	Yields      []*Clause     // constraints on the arguments passed to the callback (cb0, cb1, ...)
+	Completes   *Clause       // number of calls when the callback never stops the iteration
 	Assigns  []SExpr
 	HasAssigns bool
 	Loops    map[int]*LoopSpec
@@ -145,7 +146,7 @@ func NewSpecSet() *SpecSet {
 	return &SpecSet{SpecFuncs: map[string]*SpecFunc{}, GhostVars: map[string]*GhostVar{}, AxiomPkg: map[*Clause]string{}}
 }
 
-var keywordRe = regexp.MustCompile(`^(panics|preserves|iterates|yields|typepaths|package|func|prop|mode|requires|ensures|guarantee|rely|callsite|assigns|loop|let|eval|trusted|pure|maypanic|spec|ghost|axiom|lemma|end|noinline|inline|concurrent|safety|flag|terminates)\b`)
+var keywordRe = regexp.MustCompile(`^(panics|preserves|iterates|yields|completes|typepaths|package|func|prop|mode|requires|ensures|guarantee|rely|callsite|assigns|loop|let|eval|trusted|pure|maypanic|spec|ghost|axiom|lemma|end|noinline|inline|concurrent|safety|flag|terminates)\b`)
 
 // ParseSpecFile reads //@ lines from a Go file or a .gospec file.
 // defaultPkg is the package path of the directory for in-repo contract files.
@@ -429,6 +430,9 @@ func (ss *SpecSet) ParseSpecFile(path, defaultPkg string) {
 				cur.Iterates = strings.TrimSpace(rest)
 			case "yields":
 				cur.Yields = append(cur.Yields, &Clause{Kind: "yields", Text: rest, Expr: parse(l, rest), File: path, Line: l.no})
+			case "completes":
+				// `completes <int expr>`: an iterator whose callback never answers false calls it exactly that often
+				cur.Completes = &Clause{Kind: "completes", Text: rest, Expr: parse(l, rest), File: path, Line: l.no}
 			case "trusted", "maypanic", "noinline", "inline", "terminates", "panics":
 				cur.Flags[kw] = "1"
 			case "concurrent", "safety", "flag":
